@@ -671,3 +671,10 @@ V("ST1-benign-status-tested-per-scope-in-the-caller", "C13", None,
   ("scaling.py", _ST_OLD, ""),
   ("scaling.py", _GS_OLD, "    for p in [channel_properties, group_properties, file_properties]:\n        if p.get(\"NI_Scaling_Status\", \"unscaled\") == \"scaled\":\n            continue\n"
    "        s = _get_channel_scaling(p)\n        if s is not None:\n            return s\n    return None\n"))
+_DT_OLD = ("    @property\n    def data_type(self):\n        try:\n            return numpy_data_types[self.data.dtype]\n")
+V("MS1-data-type-memoised-on-the-channel-object", "C08", "MS1",
+  ("writer.py", _DT_OLD, "    _data_type = None\n\n    @property\n    def data_type(self):\n        if self._data_type is None:\n            self._data_type = self._find_data_type()\n"
+   "        return self._data_type\n\n    def _find_data_type(self):\n        try:\n            return numpy_data_types[self.data.dtype]\n"))
+V("MS1-benign-memo-of-nothing-reassignable", "C08", None,
+  ("writer.py", _DT_OLD, "    _void = None\n\n    def _void_type(self):\n        if self._void is None:\n            self._void = Void\n        return self._void\n\n"
+   "    @property\n    def data_type(self):\n        try:\n            return numpy_data_types[self.data.dtype]\n"))
